@@ -171,6 +171,9 @@ func buildHandSCS[E constraint.Element](r *RNG, q *big.Int, sys interface {
 	constraint.SparseR1CS[E]
 }) *handBuilt {
 	bid := sys.AddBlueprint(&constraint.BlueprintGenericSparseR1C[E]{})
+	bidMul := sys.AddBlueprint(&constraint.BlueprintSparseR1CMul[E]{})
+	bidAdd := sys.AddBlueprint(&constraint.BlueprintSparseR1CAdd[E]{})
+	bidBool := sys.AddBlueprint(&constraint.BlueprintSparseR1CBool[E]{})
 	var vals []*big.Int
 	nPub, nSec := 1+r.Intn(2), 1+r.Intn(2)
 	var wit []*big.Int
@@ -194,6 +197,33 @@ func buildHandSCS[E constraint.Element](r *RNG, q *big.Int, sys interface {
 		pos := r.Intn(4)
 		xa, xb, xc := r.Intn(len(vals)), r.Intn(len(vals)), r.Intn(len(vals))
 		ql, qr, qo, qm := coefPool(r, q), coefPool(r, q), coefPool(r, q), coefPool(r, q)
+		// the specialised blueprints (what the builder emits for Mul / Add / AssertIsBoolean), with arbitrary coefficients
+		switch r.Intn(6) {
+		case 0: // xc := qm * xa * xb
+			w := sys.AddInternalVariable()
+			vals = append(vals, mulm(qm, mulm(vals[xa], vals[xb])))
+			sys.AddSparseR1C(constraint.SparseR1C{XA: uint32(xa), XB: uint32(xb), XC: uint32(w), QM: cid(qm), QO: cid(new(big.Int).Sub(q, big.NewInt(1)))}, bidMul)
+			desc += "mul-blueprint;"
+			continue
+		case 1: // xc := ql * xa + qr * xb + qc
+			w := sys.AddInternalVariable()
+			qc := coefPool(r, q)
+			t := new(big.Int).Add(mulm(ql, vals[xa]), mulm(qr, vals[xb]))
+			t.Add(t, qc)
+			vals = append(vals, t.Mod(t, q))
+			sys.AddSparseR1C(constraint.SparseR1C{XA: uint32(xa), XB: uint32(xb), XC: uint32(w), QL: cid(ql), QR: cid(qr), QC: cid(qc), QO: cid(new(big.Int).Sub(q, big.NewInt(1)))}, bidAdd)
+			desc += "add-blueprint;"
+			continue
+		case 2: // ql * xa + qm * xa^2 == 0 with ql := -qm * xa (holds; the coefficients are not the builder's -1 / 1)
+			if qm.Sign() == 0 {
+				qm = big.NewInt(3)
+			}
+			ql = mulm(new(big.Int).Neg(qm), vals[xa])
+			ql.Mod(ql, q)
+			sys.AddSparseR1C(constraint.SparseR1C{XA: uint32(xa), XB: uint32(xa), QL: cid(ql), QM: cid(qm)}, bidBool)
+			desc += "bool-blueprint;"
+			continue
+		}
 		if r.Intn(3) == 0 {
 			qm = big.NewInt(0)
 		}
